@@ -288,3 +288,25 @@ func init() {
 		}
 	}
 }
+
+func init() {
+	debugHooks["pa1"] = func(p *Prog, args []string) {
+		pa := p.Fn("UpdateDecoder.decodePathAttrs")
+		a := NewAnalysis(p, pa)
+		a.NoInline = map[string]bool{"attrsBitmap.isSet": true, "attrsBitmap.set": true}
+		a.AtomHook = func(e *Expr) (ISet, bool) {
+			if e.Op == "nn" && e.Args[0].Op == "rcall" && e.Args[0].S == "dyn:PathAttrsDecodeFn[T]" {
+				return isConst(1), true
+			}
+			if e.Op == "call" && strings.HasPrefix(e.S, "errors.As:") {
+				return isConst(1), true
+			}
+			return nil, false
+		}
+		a.Run()
+		fmt.Println(a.Undecided)
+		for _, r := range a.Returns {
+			fmt.Println(p.InstrPos(r.Instr), trunc(r.Results[0].Key, 200), r.State.may["call:dyn:PathAttrsDecodeFn[T]"])
+		}
+	}
+}
